@@ -38,14 +38,16 @@ def _pow2_divisors(rng, ln):
     return ' '.join(toks)
 
 
-def many_maps_history(rng):
+def many_maps_history(rng, forced=None):
     """2..N with N LARGE: 255-300 tiny maps sharing a few pixels (a per-pixel input counter that is too narrow
     wraps at 256: seeded change C06d)."""
-    n = rng.choice([255, 256, 257, 300])
+    n = rng.choice([255, 256, 256, 257, 300, 300])
     name = rng.choice(['sum_intersection', 'or_intersection', 'max_intersection', 'min_intersection',
-                       'xor_intersection', 'sum_union', 'and_intersection'])
+                       'xor_intersection', 'sum_union', 'and_intersection', 'sum_intersection'])
     dt = rng.choice(['i8', 'i4', 'i8'])
     sent = rng.choice(['default', '0'])
+    if forced:
+        n, name, sent = forced
     cfgs = [gen.MapCfg('m%d' % i, 'plain', 0, rng.choice([0, 1]) if i == 0 else 0, dtype=dt, sentinel=sent)
             for i in range(n)]
     for c in cfgs:
@@ -57,7 +59,7 @@ def many_maps_history(rng):
         pix = list(common)
         if rng.random() < 0.3:
             pix.append(rng.randrange(c0.npix))
-        if i == n - 1 and rng.random() < 0.5:
+        if i == n - 1 and rng.random() < 0.5 and not forced:
             pix = pix[1:]                       # one common pixel missing from the LAST map only
         pix = sorted(set(pix))
         h.append('upd %s op=replace pix=%s vals=%s' % (c.name, ','.join(map(str, pix)),
@@ -69,7 +71,8 @@ def many_maps_history(rng):
 
 def histories(rng, tier):
     n = 500 if tier == 'quick' else 3000
-    out = [many_maps_history(rng) for _ in range(3 if tier == 'quick' else 12)]
+    out = [many_maps_history(rng, f) for f in [(256, 'sum_intersection', 'default'), (300, 'max_intersection', 'default')] +
+           [None] * (4 if tier == 'quick' else 18)]
     for _ in range(n):
         name = rng.choice(NAMES)
         kinds = ['int', 'int', 'wide'] if name in INT_ONLY else ['int', 'flt', 'flt', 'wide']
